@@ -152,7 +152,7 @@ func flipBit(t *rapid.T, b []byte, off, n int, label string) int {
 // newEltValue draws a different canonical value for a field element.
 func newEltValue(t *rapid.T, cur, p *big.Int, label string) *big.Int {
 	var v *big.Int
-	switch rapid.IntRange(0, 6).Draw(t, label+".k") {
+	switch pick(t, 7, label+".k") {
 	case 0:
 		v = new(big.Int).Add(cur, big.NewInt(1))
 	case 1:
@@ -229,7 +229,7 @@ func alteration(t *rapid.T, c *icase, r, other *report, kind string) (v *view, l
 		v.ins[0] = b
 	case "leader-resize", "helper-resize", "pubshare-resize", "prepshare-resize", "prepmsg-resize":
 		resize := func(b []byte) []byte {
-			switch rapid.IntRange(0, 3).Draw(t, "rs") {
+			switch pick(t, 4, "rs") {
 			case 0:
 				return append(cp(b), rapid.Byte().Draw(t, "rs.b"))
 			case 1:
@@ -307,6 +307,7 @@ func alteration(t *rapid.T, c *icase, r, other *report, kind string) (v *view, l
 		}
 		i := rapid.IntRange(0, n-1).Draw(t, "agg")
 		v.ins[i] = other.ins[i]
+		asserted = unrelated(l, r, other)
 	case "pubshare-part-all", "pubshare-part-other", "pubshare-part-own":
 		j := rapid.IntRange(0, n-1).Draw(t, "part")
 		b := cp(r.pub)
@@ -355,6 +356,7 @@ func alteration(t *rapid.T, c *icase, r, other *report, kind string) (v *view, l
 			flipBit(t, b, l.verLen*l.fs, seedSize, "bit")
 		default:
 			b = cp(other.prepShares[i])
+			asserted = unrelated(l, r, other)
 		}
 		if bytes.Equal(b, r.prepShares[i]) {
 			return v, "identity", false
@@ -390,6 +392,26 @@ func alteration(t *rapid.T, c *icase, r, other *report, kind string) (v *view, l
 		panic("unknown alteration " + kind)
 	}
 	return v, label, asserted
+}
+
+// unrelated tells whether two honest reports share neither the nonce nor any
+// helper seed. Splicing a share of one into the other is only then certain to
+// be refused: with a reused nonce and reused helper seeds the spliced report
+// is simply a replay of the other (valid) report.
+func unrelated(l *layout, a, b *report) bool {
+	if a.nonce == b.nonce {
+		return false
+	}
+	step := seedSize
+	if l.jr {
+		step = 2 * seedSize
+	}
+	for i := 0; i < l.shares-1; i++ {
+		if bytes.Equal(a.rand[i*step:i*step+seedSize], b.rand[i*step:i*step+seedSize]) {
+			return false
+		}
+	}
+	return true
 }
 
 func viewEqual(a, b *view) bool {
@@ -506,10 +528,10 @@ func batchProperty(t *rapid.T, name string, shares uint8, large bool, maxBatch i
 	copy(vk[:], vlib.EdgeBytes(t, len(vk), "vk"))
 
 	nValid := rapid.IntRange(1, maxBatch).Draw(t, "nvalid")
-	nAlt := rapid.IntRange(0, 3).Draw(t, "nalt")
+	nAlt := pick(t, 4, "nalt")
 	nInv := 0
 	if c.genInvalidMeas != nil {
-		nInv = rapid.IntRange(0, 1).Draw(t, "ninv")
+		nInv = pick(t, 2, "ninv")
 	}
 	if n > 16 {
 		nAlt, nInv = min(nAlt, 1), 0
@@ -542,6 +564,125 @@ func batchProperty(t *rapid.T, name string, shares uint8, large bool, maxBatch i
 			return nil, &panicErr{p, st}
 		}
 		return r, err
+	}
+
+	// altered reports: must be refused, so they never reach the aggregate
+	kinds := altKindsAll
+	if l.jr {
+		kinds = append(append([]string{}, altKindsAll...), altKindsJR...)
+		kinds = append(kinds, altKindsJR...)
+	}
+	doAltered := func(k int) bool {
+		asub := "altered/" + name
+		r := reports[rapid.IntRange(0, len(reports)-1).Draw(t, "alt.base")]
+		var other *report
+		if len(reports) > 1 {
+			other = reports[rapid.IntRange(0, len(reports)-1).Draw(t, "alt.other")]
+			if other == r {
+				other = nil
+			}
+		}
+		kind := pickFrom(t, kinds, "alt.kind")
+		v, label, asserted := alteration(t, c, r, other, kind)
+		vlib.Eval(asub)
+		if label == "n/a" || label == "identity" {
+			vlib.Class(asub, label+":"+kind)
+			return true
+		}
+		if viewEqual(v, honestView(I, r)) {
+			vlib.Class(asub, "alteration-was-identity:"+label)
+			return true
+		}
+		var o outcome
+		p, st := vlib.Catch(func() { o = process(I, &vk, v) })
+		if p != nil {
+			vlib.Report(t, "C19/panic/"+name+"/prepare/"+vlib.PanicClass(p), fmt.Sprintf("%s alteration %s: %v\n%s", c.desc, label, p, st))
+			return false
+		}
+		if o.viol != nil {
+			vlib.Report(t, o.viol.key, c.desc+" alteration "+label+": "+o.viol.detail)
+			return false
+		}
+		cls := label + " → "
+		if o.accepted {
+			cls += "accepted"
+		} else {
+			cls += "rejected@" + o.stage
+		}
+		if !asserted {
+			vlib.Class(asub, "not-asserted:"+cls)
+			if o.accepted && (kind == "nonce-all" || kind == "pubshare-part-own") {
+				// the shares are the honest ones: an accepted report still must
+				// contribute exactly its measurement
+				if got, exp := sumShares(l, o.outs), c.output(r.m); !vecEq(got, exp) {
+					vlib.Report(t, "C19/out-shares/"+name+"/after-unasserted-alteration", fmt.Sprintf("%s alteration %s: outputs %s want %s", c.desc, label, fmtVec(got), fmtVec(exp)))
+					return false
+				}
+			}
+			return true
+		}
+		if o.accepted {
+			vlib.Report(t, "C19/altered-accepted/"+name+"/"+strings.SplitN(label, ":", 2)[0],
+				fmt.Sprintf("%s measurement %v nonce %x vk %x rand %s: alteration %s passed PrepInit, PrepSharesToPrep and PrepNext at all %d aggregators (outputs add up to %s)",
+					c.desc, r.m, r.nonce, vk, vlib.Hex(r.rand), label, n, fmtVec(sumShares(l, o.outs))))
+			return false
+		}
+		vlib.NonTrivial(asub, cls, []byte(c.desc), measBytes(r.m), r.nonce[:], r.rand, vk[:], []byte(label), []byte(fmt.Sprint(k)))
+		vlib.Sample(asub, cls, fmt.Sprintf("%s m=%v nonce=%x: %s (%v)", c.desc, r.m, r.nonce, cls, o.err))
+		return true
+	}
+
+	// measurements outside the valid set handed to Shard: refused by the
+	// client (error or panic, both only counted) or rejected in preparation
+	doInvalid := func(k int) bool {
+		isub := "invalid/" + name
+		m, label := c.genInvalidMeas(t)
+		vlib.Eval(isub)
+		r, err := newReport(m, fmt.Sprintf("inv%d", k))
+		if err != nil {
+			var pe *panicErr
+			var hv *harnessViol
+			switch {
+			case errors.As(err, &pe):
+				vlib.Class(isub, label+" → shard-panic:"+vlib.PanicClass(pe.p))
+				vlib.Sample(isub, "shard-panic", fmt.Sprintf("%s Shard(%v) panics: %v", c.desc, m, pe.p))
+			case errors.As(err, &hv):
+				vlib.Report(t, hv.key, c.desc+": "+hv.detail)
+				return false
+			default:
+				vlib.Class(isub, label+" → shard-error")
+			}
+			vlib.NonTrivial(isub, "", []byte(c.desc), measBytes(m))
+			return true
+		}
+		var o outcome
+		p, st := vlib.Catch(func() { o = process(I, &vk, honestView(I, r)) })
+		if p != nil {
+			vlib.Report(t, "C19/panic/"+name+"/prepare/"+vlib.PanicClass(p), fmt.Sprintf("%s invalid measurement %v: %v\n%s", c.desc, m, p, st))
+			return false
+		}
+		if o.viol != nil {
+			vlib.Report(t, o.viol.key, c.desc+": "+o.viol.detail)
+			return false
+		}
+		if o.accepted {
+			vlib.Report(t, "C19/invalid-measurement-accepted/"+name,
+				fmt.Sprintf("%s: Shard(%v) (%s) succeeds and the report passes preparation at all aggregators; outputs add up to %s", c.desc, m, label, fmtVec(sumShares(l, o.outs))))
+			return false
+		}
+		vlib.NonTrivial(isub, label+" → rejected@"+o.stage, []byte(c.desc), measBytes(m), r.nonce[:], r.rand)
+		return true
+	}
+
+	// altered and invalid reports are interleaved with the valid ones: entry
+	// k of after[] is processed after valid report after[k]
+	afterAlt := make([]int, nAlt)
+	for i := range afterAlt {
+		afterAlt[i] = pick(t, nValid, "alt.pos")
+	}
+	afterInv := make([]int, nInv)
+	for i := range afterInv {
+		afterInv[i] = pick(t, nValid, "inv.pos")
 	}
 
 	for k := 0; k < nValid; k++ {
@@ -589,111 +730,16 @@ func batchProperty(t *rapid.T, name string, shares uint8, large bool, maxBatch i
 		ms = append(ms, m)
 		nonces = append(nonces, r.nonce)
 		rands = append(rands, r.rand)
-	}
-
-	// altered reports: must be refused, so they never reach the aggregate
-	kinds := altKindsAll
-	if l.jr {
-		kinds = append(append([]string{}, altKindsAll...), altKindsJR...)
-		kinds = append(kinds, altKindsJR...)
-	}
-	for k := 0; k < nAlt; k++ {
-		asub := "altered/" + name
-		r := reports[rapid.IntRange(0, len(reports)-1).Draw(t, "alt.base")]
-		var other *report
-		if len(reports) > 1 {
-			other = reports[rapid.IntRange(0, len(reports)-1).Draw(t, "alt.other")]
-			if other == r {
-				other = nil
-			}
-		}
-		kind := rapid.SampledFrom(kinds).Draw(t, "alt.kind")
-		v, label, asserted := alteration(t, c, r, other, kind)
-		vlib.Eval(asub)
-		if label == "n/a" || label == "identity" {
-			vlib.Class(asub, label+":"+kind)
-			continue
-		}
-		if viewEqual(v, honestView(I, r)) {
-			vlib.Class(asub, "alteration-was-identity:"+label)
-			continue
-		}
-		var o outcome
-		p, st := vlib.Catch(func() { o = process(I, &vk, v) })
-		if p != nil {
-			vlib.Report(t, "C19/panic/"+name+"/prepare/"+vlib.PanicClass(p), fmt.Sprintf("%s alteration %s: %v\n%s", c.desc, label, p, st))
-			return
-		}
-		if o.viol != nil {
-			vlib.Report(t, o.viol.key, c.desc+" alteration "+label+": "+o.viol.detail)
-			return
-		}
-		cls := label + " → "
-		if o.accepted {
-			cls += "accepted"
-		} else {
-			cls += "rejected@" + o.stage
-		}
-		if !asserted {
-			vlib.Class(asub, "not-asserted:"+cls)
-			if o.accepted {
-				// an accepted report still must contribute exactly its measurement
-				if got, exp := sumShares(l, o.outs), c.output(r.m); !vecEq(got, exp) {
-					vlib.Report(t, "C19/out-shares/"+name+"/after-unasserted-alteration", fmt.Sprintf("%s alteration %s: outputs %s want %s", c.desc, label, fmtVec(got), fmtVec(exp)))
-					return
-				}
-			}
-			continue
-		}
-		if o.accepted {
-			vlib.Report(t, "C19/altered-accepted/"+name+"/"+strings.SplitN(label, ":", 2)[0],
-				fmt.Sprintf("%s measurement %v nonce %x vk %x rand %s: alteration %s passed PrepInit, PrepSharesToPrep and PrepNext at all %d aggregators (outputs add up to %s)",
-					c.desc, r.m, r.nonce, vk, vlib.Hex(r.rand), label, n, fmtVec(sumShares(l, o.outs))))
-			return
-		}
-		vlib.NonTrivial(asub, cls, []byte(c.desc), measBytes(r.m), r.nonce[:], r.rand, vk[:], []byte(label), []byte(fmt.Sprint(k)))
-		vlib.Sample(asub, cls, fmt.Sprintf("%s m=%v nonce=%x: %s (%v)", c.desc, r.m, r.nonce, cls, o.err))
-	}
-
-	// measurements outside the valid set handed to Shard: refused by the
-	// client (error or panic, both only counted) or rejected in preparation
-	for k := 0; k < nInv; k++ {
-		isub := "invalid/" + name
-		m, label := c.genInvalidMeas(t)
-		vlib.Eval(isub)
-		r, err := newReport(m, fmt.Sprintf("inv%d", k))
-		if err != nil {
-			var pe *panicErr
-			var hv *harnessViol
-			switch {
-			case errors.As(err, &pe):
-				vlib.Class(isub, label+" → shard-panic:"+vlib.PanicClass(pe.p))
-				vlib.Sample(isub, "shard-panic", fmt.Sprintf("%s Shard(%v) panics: %v", c.desc, m, pe.p))
-			case errors.As(err, &hv):
-				vlib.Report(t, hv.key, c.desc+": "+hv.detail)
+		for i, pos := range afterAlt {
+			if pos == k && !doAltered(i) {
 				return
-			default:
-				vlib.Class(isub, label+" → shard-error")
 			}
-			vlib.NonTrivial(isub, "", []byte(c.desc), measBytes(m))
-			continue
 		}
-		var o outcome
-		p, st := vlib.Catch(func() { o = process(I, &vk, honestView(I, r)) })
-		if p != nil {
-			vlib.Report(t, "C19/panic/"+name+"/prepare/"+vlib.PanicClass(p), fmt.Sprintf("%s invalid measurement %v: %v\n%s", c.desc, m, p, st))
-			return
+		for i, pos := range afterInv {
+			if pos == k && !doInvalid(i) {
+				return
+			}
 		}
-		if o.viol != nil {
-			vlib.Report(t, o.viol.key, c.desc+": "+o.viol.detail)
-			return
-		}
-		if o.accepted {
-			vlib.Report(t, "C19/invalid-measurement-accepted/"+name,
-				fmt.Sprintf("%s: Shard(%v) (%s) succeeds and the report passes preparation at all aggregators; outputs add up to %s", c.desc, m, label, fmtVec(sumShares(l, o.outs))))
-			return
-		}
-		vlib.NonTrivial(isub, label+" → rejected@"+o.stage, []byte(c.desc), measBytes(m), r.nonce[:], r.rand)
 	}
 
 	// collect
@@ -725,7 +771,7 @@ func batchProperty(t *rapid.T, name string, shares uint8, large bool, maxBatch i
 		return
 	}
 	// the same batch on the Go values, without marshalling
-	if representable && rapid.IntRange(0, 2).Draw(t, "direct") == 0 {
+	if representable && pick(t, 3, "direct") == 0 {
 		var dgot any
 		p, st := vlib.Catch(func() { dgot, err = I.Direct(&vk, ms, nonces, rands) })
 		if p != nil {
@@ -794,12 +840,12 @@ func TestC19Batch(t *testing.T) {
 	for _, name := range instNames {
 		name := name
 		t.Run(name, func(t *testing.T) {
-			n := vlib.N(60, 260)
+			n := vlib.N(1000, 6000)
 			if name == "count" {
-				n = vlib.N(90, 400)
+				n = vlib.N(1500, 9000)
 			}
 			vlib.Check(t, n, func(t *rapid.T) {
-				batchProperty(t, name, drawShares(t), vlib.Thorough() && rapid.IntRange(0, 5).Draw(t, "big") == 0, 8)
+				batchProperty(t, name, drawShares(t), vlib.Thorough() && pick(t, 6, "big") == 0, 8)
 			})
 		})
 	}
@@ -814,7 +860,7 @@ func TestC19Wide(t *testing.T) {
 	}
 	name := instNames[vlib.Shard%len(instNames)]
 	vlib.Check(t, 2, func(t *rapid.T) {
-		shares := uint8(rapid.SampledFrom([]int{255, 255, 254, 128, 17}).Draw(t, "wide"))
+		shares := uint8(pickFrom(t, []int{255, 255, 254, 128, 17}, "wide"))
 		batchProperty(t, name, shares, false, 2)
 	})
 }
@@ -855,9 +901,9 @@ func TestC19Constructors(t *testing.T) {
 			vlib.Report(rt, "C19/constructor/"+inst+"/"+short, detail)
 		}
 	}
-	vlib.Check(t, vlib.N(150, 1200), func(rt *rapid.T) {
+	vlib.Check(t, vlib.N(1500, 10000), func(rt *rapid.T) {
 		ctx := drawCtx(rt)
-		inst := rapid.SampledFrom(instNames).Draw(rt, "inst")
+		inst := pickFrom(rt, instNames, "inst")
 		kinds := []string{"shares-lt2"}
 		switch inst {
 		case "sum":
@@ -865,11 +911,11 @@ func TestC19Constructors(t *testing.T) {
 		case "sumvec", "histogram", "mhcv":
 			kinds = append(kinds, "chunk0", "chunk0")
 		}
-		kind := rapid.SampledFrom(kinds).Draw(rt, "kind")
+		kind := pickFrom(rt, kinds, "kind")
 		// otherwise admissible parameters
 		shares := drawShares(rt)
 		if kind == "shares-lt2" {
-			shares = uint8(rapid.IntRange(0, 1).Draw(rt, "fewshares"))
+			shares = uint8(pick(rt, 2, "fewshares"))
 		}
 		switch inst {
 		case "count":
@@ -877,7 +923,7 @@ func TestC19Constructors(t *testing.T) {
 		case "sum":
 			max := drawSumBound(rt)
 			if kind == "bound-too-large" {
-				switch rapid.IntRange(0, 6).Draw(rt, "big.k") {
+				switch pick(rt, 7, "big.k") {
 				case 0:
 					max = 1 << 63
 				case 1:
